@@ -2,11 +2,14 @@
 C09 — "Cached maps always return the latest write (read-your-writes)".
 
 Models: `Model/WideCache.lean` (single-value and multi-type maps, `WideColumnCache`), one LTS per
-cache key with atomic steps of the code; `Model/SetCache.lean` (key-to-set map).
+cache key with atomic steps of the code; `Model/SetCache.lean` (key-to-set map, one task, atomic operations);
+`Model/SetCacheConc.lean` (key-to-set map, any number of tasks, multi-step operations).
 -/
 import QbiceVerif.Lemmas.CacheWide
 import QbiceVerif.Lemmas.CacheSet
 import QbiceVerif.Lemmas.CacheWideConc
+import QbiceVerif.Lemmas.SetCacheConcMain
+import QbiceVerif.Lemmas.SetCacheConcOwner
 
 namespace QbiceVerif.C09
 open QbiceVerif
@@ -66,8 +69,9 @@ probes, and compared by the fill before it installs the value it read from the s
 
 ANY number `n` of foreground tasks, each with its own open batch; ANY interleaving of their atomic steps
 (begin / put / cacheWrite / submit / readGen / probe / single-flight enter, wake, leave / store read / fill)
-with the background events commit / notify / evict; the only requirement on the schedule is the usage
-assumption `ordered`: a write reaches the cache (`cacheWrite`) only from a batch whose epoch is larger than
+with the background events commit / notify / evict (`runAny` accepts every enabled schedule); the only requirement
+on the schedule is the EXPLICIT hypothesis `hordered` (`orderedSched`: every `cacheWrite` of the schedule is `ordered`
+in the state in which it fires) – the usage assumption `ordered`: a write reaches the cache (`cacheWrite`) only from a batch whose epoch is larger than
 that of every other uncommitted batch that has already written the key to the cache (without it even a
 sequential pair of writes from two overlapping batches is applied to the store in the other order – see
 `ordered_is_needed`).  Then every value a `get` returns equals `latest` at the moment of its final probe,
@@ -79,13 +83,15 @@ probe; so a `get` follows, in the linearisation, every write that returned befor
 returns the last write before its point. -/
 theorem wide_refines_map_concurrent (db0 : Option Nat) (n : Nat) (sched : List WideCacheR.Ev)
     (s : WideCacheR.State) (outs : List (Option Nat × Option Nat))
-    (h : WideCacheR.run (WideCacheR.init true db0 n) sched = some (s, outs)) :
+    (h : WideCacheR.runAny (WideCacheR.init true db0 n) sched = some (s, outs))
+    (hordered : WideCacheR.orderedSched (WideCacheR.init true db0 n) sched = true) :
     ∀ p ∈ outs, p.1 = p.2 :=
-  WideCacheR.run_outputs (WideCacheR.inv_init db0 n) h
+  WideCacheR.run_outputs (WideCacheR.inv_init db0 n) (WideCacheR.run_of_runAny h hordered)
 
-/-- the same as an invariant of the states reachable by ordered schedules -/
+/-- the same as an invariant of the states reachable by ordered schedules (`ReachOrdered`: every step that is a
+`cacheWrite` satisfies `ordered`) -/
 theorem wide_refines_map_concurrent_reach (db0 : Option Nat) (n : Nat) (s s' : WideCacheR.State) (i : Nat)
-    (r : Option Nat) (hr : WideCacheR.Reach (WideCacheR.init true db0 n) s)
+    (r : Option Nat) (hr : WideCacheR.ReachOrdered (WideCacheR.init true db0 n) s)
     (hp : WideCacheR.fire s (.probe i) = some (s', some r)) : r = s.latest :=
   ((WideCacheR.inv_step (WideCacheR.inv_reach hr) (by intro t ht; cases ht) hp).2 r rfl).1
 
@@ -221,6 +227,206 @@ theorem set_concurrent_get_insert_fails :
       let (s3, _) := SetCache.getFetch s2 sn
       let (s4, out) := SetCache.get s3
       pure (out, s4.truth) : Option (List Nat × List Nat)) = some ([1, 2], [1, 2, 9]) := by decide
+
+
+/-! ## key-to-set map, concurrent foreground tasks -/
+
+/-- "plus parallel readers/writers on shared keys" – the key-to-set cache AS THE CODE IS (since /repo 73760b5;
+model `SetCacheConc` with `fix = true`: `get` loads `write_generation` before it takes its staging snapshot and
+caches the set it fetched only if the generation is unchanged; `insert`/`remove` bump it after staging the
+operation and before they look for a cached set to update).
+
+ANY number `n` of foreground tasks, each with its own open batch; ANY interleaving of the atomic steps of their
+operations (`get`: invocation / generation load / staging snapshot / cache lookup / waiter retry / store scan /
+build + insert-if-vacant-and-generation-unchanged / read of the entry it holds – the `Spilled` pieces, the
+in-memory set, or a second scan merged with the snapshot; `insert`, `remove`: record in the batch + append to the
+staging log / generation bump / cache lookup / in-place update of the entry it got, evicted or not / downgrade
+to `TooLarge`) with the background events commit / `FlushUpTo` notification / eviction of the cached set /
+generation bumps by writes to other keys (`runAny` accepts every enabled schedule); ANY spill threshold and store
+image.  The only requirement on the schedule is the EXPLICIT hypothesis `hordered` (`orderedSched`: every `stage` of
+the schedule satisfies `orderedElem` in the state in which it fires) – the usage assumption on `stage` steps: two writes of the SAME ELEMENT never overlap, and
+come from batches in epoch order (writes of different elements of the key are unconstrained – this is WEAKER
+than the wide cache's `ordered`, and it is what the engine does: the elements of a backward-edge set are written
+by their own query's task); it cannot be dropped: `set_overlap_is_needed`, `set_epoch_order_is_needed`.
+
+Conclusion, for every completed `get` of any task: the returned set lies between the ghost bounds of the
+operation's interval, `must ⊆ out ⊆ may`, where at the invocation `must` = the abstract set minus the elements
+some write in flight is working on, `may` = the abstract set plus those elements, and every write of `x` staged
+during the interval removes `x` from `must` and adds it to `may` (the abstract set `truth` changes at `stage`; a
+write in flight leaves its element unconstrained even when it happens to be idempotent).
+That is: ELEMENT BY ELEMENT the `get` is linearizable – membership of `x` in the result is the membership of `x`
+in the abstract set at some point of the interval, under one of the linearisation orders of the writes of `x`
+that overlap it; in particular a `get` that overlaps no write of the key returns exactly the abstract set
+(`must = may = truth`), whatever fetches, installs, evictions, commits and flushes of other tasks it races with,
+and every write that returned before the `get` was invoked is in the result.
+
+The result as a WHOLE need not be the abstract set at one instant (the staging snapshot and the store scan of a
+fetch are taken at two instants): `set_whole_set_not_atomic`. -/
+theorem set_refines_map_concurrent (thr : Nat) (db0 : List Nat) (n : Nat) (sched : List SetCacheConc.Ev)
+    (s : SetCacheConc.State) (outs : List SetCacheConc.Out)
+    (h : SetCacheConc.runAny (SetCacheConc.init true thr db0 n) sched = some (s, outs))
+    (hordered : SetCacheConc.orderedSched (SetCacheConc.init true thr db0 n) sched = true) :
+    ∀ o ∈ outs, ∀ x, (x ∈ o.must → x ∈ o.out) ∧ (x ∈ o.out → x ∈ o.may) :=
+  SetCacheConc.run_outputs (SetCacheConc.inv_init true thr db0 n) rfl sched s outs (SetCacheConc.run_of_runAny h hordered)
+
+/-- The schedule hypothesis DISCHARGED for the engine's write discipline.  In the engine the element of a
+key-of-set column is the query that is being published (`backward_edges.insert(callee, self.query_id(), tx)`), a
+query has one publication at a time, and the batch is created inside the publication – in the model: every element
+is written by ONE FIXED TASK (`ownedSched owner sched`: each `stage t x _` of the schedule has `owner x = t`), a
+task having one open batch at a time and batch epochs being creation order (both built into the model's `begin`).
+Then every `stage` is `orderedElem` (`SetCacheConc.owned_is_ordered`, proved), and the conclusion of
+`set_refines_map_concurrent` holds with NO assumption on the interleaving: any number of tasks, any schedule `runAny`
+accepts.  (That the engine follows this discipline was read from database.rs / slow_path.rs, see the plugin's
+ASSUMPTIONS; it is not machine-checked against the engine.) -/
+theorem set_refines_map_concurrent_owned (thr : Nat) (db0 : List Nat) (n : Nat) (owner : Nat → Nat)
+    (sched : List SetCacheConc.Ev) (s : SetCacheConc.State) (outs : List SetCacheConc.Out)
+    (h : SetCacheConc.runAny (SetCacheConc.init true thr db0 n) sched = some (s, outs))
+    (howned : SetCacheConc.ownedSched owner sched = true) :
+    ∀ o ∈ outs, ∀ x, (x ∈ o.must → x ∈ o.out) ∧ (x ∈ o.out → x ∈ o.may) :=
+  set_refines_map_concurrent thr db0 n sched s outs h
+    (SetCacheConc.owned_is_ordered sched _ (SetCacheConc.inv_init true thr db0 n) rfl (SetCacheConc.own_init owner true thr db0 n) howned)
+
+/-- non-vacuity: elements ≥ 8 belong to task 1, the others to task 0; both write, in anti-epoch order across
+elements, overlapping each other and a reader (task 2) -/
+example :
+    SetCacheConc.ownedSched (fun x => if x ≥ 8 then 1 else 0)
+      [.begin 0, .begin 1, .gStart 2, .gLoad 2, .gSnap 2, .stage 1 9 true, .stage 0 2 false, .bump 0, .gLookup 2, .bump 1,
+       .wLookup 1, .gScan 2, .wLookup 0, .gInstall 2, .gRead 2] = true ∧
+    (SetCacheConc.runAny (SetCacheConc.init true 1024 [1, 2] 3)
+      [.begin 0, .begin 1, .gStart 2, .gLoad 2, .gSnap 2, .stage 1 9 true, .stage 0 2 false, .bump 0, .gLookup 2, .bump 1,
+       .wLookup 1, .gScan 2, .wLookup 0, .gInstall 2, .gRead 2]).map (·.2) = some [⟨[1, 2], [1], [1, 2, 9]⟩] := by decide
+
+/-- the same as a statement about the states reachable by ordered schedules (`ReachOrdered`: every step that is a
+`stage` satisfies `orderedElem`): whenever a task's `get` completes,
+what it returns is within its bounds -/
+theorem set_refines_map_concurrent_reach (thr : Nat) (db0 : List Nat) (n : Nat) (s s' : SetCacheConc.State) (t : Nat)
+    (o : SetCacheConc.Out) (hr : SetCacheConc.ReachOrdered (SetCacheConc.init true thr db0 n) s)
+    (hp : SetCacheConc.fire s (.gRead t) = some (s', some o)) :
+    ∀ x, (x ∈ o.must → x ∈ o.out) ∧ (x ∈ o.out → x ∈ o.may) :=
+  SetCacheConc.read_ok (SetCacheConc.inv_reach hr).1 hp
+
+/-- "a read returns exactly the result of all inserts and removes issued before it", concurrent form: a `get` of
+task `t` that is invoked in a state reachable by ordered steps (`ReachOrdered`) in which no write of the key is in flight (`inflight s = []`: every
+earlier write has returned) and during which no write of the key is staged – while ANY other steps of ANY tasks
+run in between (`mid`: this and other tasks' fetches, installs, waiter retries, commits, flushes,
+evictions, generation bumps by other keys, batches opened and submitted) – returns EXACTLY the abstract set. -/
+theorem set_get_without_overlap_exact (thr : Nat) (db0 : List Nat) (n t : Nat) (s s1 s2 s3 : SetCacheConc.State)
+    (o1 : Option SetCacheConc.Out) (o : SetCacheConc.Out) (mid : List SetCacheConc.Ev)
+    (hr : SetCacheConc.ReachOrdered (SetCacheConc.init true thr db0 n) s) (hq : SetCacheConc.inflight s = [])
+    (h1 : SetCacheConc.fire s (.gStart t) = some (s1, o1)) (h2 : SetCacheConc.runQuiet t s1 mid = some s2)
+    (h3 : SetCacheConc.fire s2 (.gRead t) = some (s3, some o)) : ∀ x, x ∈ o.out ↔ x ∈ s.truth :=
+  SetCacheConc.quiet_get_exact hr hq h1 h2 h3
+
+/-- non-vacuity of the hypotheses: the second `get` of the F50 schedule (task 0 reads again after task 1's insert
+returned; in between task 1's batch is submitted, committed and flushed and the set evicted) -/
+example :
+    (do
+      let (s, _) ← SetCacheConc.run (SetCacheConc.init true 1024 [1, 2] 2)
+        [.gStart 0, .gLoad 0, .gSnap 0, .gLookup 0, .gScan 0, .begin 1, .stage 1 9 true, .bump 1, .wLookup 1, .gInstall 0, .gRead 0]
+      let (s1, _) ← SetCacheConc.fire s (.gStart 0)
+      let s2 ← SetCacheConc.runQuiet 0 s1 [.gLoad 0, .gSnap 0, .submit 1, .commit, .gLookup 0, .gScan 0, .notify, .gInstall 0]
+      let (_, o) ← SetCacheConc.fire s2 (.gRead 0)
+      pure (decide (SetCacheConc.inflight s = []), o.map (·.out), s.truth) : Option (Bool × Option (List Nat) × List Nat))
+      = some (true, some [1, 2, 9], [1, 2, 9]) := by decide
+
+/-- non-vacuity, three tasks, store {1,2}: task 0 fetches (snapshot, miss, scan) while task 1 inserts 9 (staged,
+generation bumped, nothing cached); task 0's install is refused by the generation check and it returns {1,2}
+(9 is in `may` only: the insert overlaps the read); task 2 then reads: fetch, install, {1,2,9} with `must = may`;
+task 1 removes 2 in place in the cached set; the batch is committed and flushed, the set evicted; task 0 reads
+{1,9} from the store alone. -/
+example :
+    (SetCacheConc.run (SetCacheConc.init true 1024 [1, 2] 3)
+      [.gStart 0, .gLoad 0, .gSnap 0, .gLookup 0, .gScan 0,
+       .begin 1, .stage 1 9 true, .bump 1, .wLookup 1,
+       .gInstall 0, .gRead 0,
+       .gStart 2, .gLoad 2, .gSnap 2, .gLookup 2, .gScan 2, .gInstall 2, .gRead 2,
+       .stage 1 2 false, .bump 1, .wLookup 1, .wApply 1, .gStart 2, .gLoad 2, .gSnap 2, .gLookup 2, .gRead 2,
+       .submit 1, .commit, .notify, .evict,
+       .gStart 0, .gLoad 0, .gSnap 0, .gLookup 0, .gScan 0, .gInstall 0, .gRead 0]).map (·.2)
+      = some [⟨[1, 2], [1, 2], [1, 2, 9]⟩, ⟨[1, 2, 9], [1, 2, 9], [1, 2, 9]⟩, ⟨[1, 9], [1, 9], [1, 9]⟩,
+              ⟨[1, 9], [1, 9], [1, 9]⟩] := by decide
+
+/-- non-vacuity across the threshold (thr = 2, store {1,2,3}) with two writers on DIFFERENT elements whose batches
+are staged against the epoch order (allowed), a spilled fetch, a streaming read of the `TooLarge` entry, and an
+in-place update of an entry that has been evicted in between (task 1 holds the old `Arc`). -/
+example :
+    (SetCacheConc.run (SetCacheConc.init true 2 [1, 2, 3] 3)
+      [.begin 0, .begin 1, .stage 1 7 true, .bump 1, .wLookup 1, .stage 0 2 false, .bump 0, .wLookup 0,
+       .gStart 2, .gLoad 2, .gSnap 2, .gLookup 2, .gScan 2, .gInstall 2, .gRead 2,
+       .gStart 2, .gLoad 2, .gSnap 2, .gLookup 2, .gRead 2,
+       .submit 0, .commit, .notify, .evict,
+       .gStart 2, .gLoad 2, .gSnap 2, .gLookup 2, .gScan 2, .gInstall 2, .gRead 2,
+       .stage 1 8 true, .bump 1, .wLookup 1, .evict, .wApply 1,
+       .gStart 2, .gLoad 2, .gSnap 2, .gLookup 2, .gScan 2, .gInstall 2, .gRead 2]).map
+        (fun r => r.2.map (fun o => (o.out, o.must == o.may)))
+      = some [([1, 3, 7], true), ([1, 3, 7], true), ([1, 3, 7], true), ([1, 3, 7, 8], true)] := by decide
+
+/-- HISTORICAL witness (the code BEFORE /repo 73760b5, finding F50): the same machine with the generation check
+switched off (`fix = false`) violates the statement.  Task 0's fetch took its snapshot and scanned the store
+before task 1 staged the insert of 9 and found nothing cached; the fetch then installs {1,2}; a later `get`, which
+overlaps no write, returns {1,2} although its `must` bound holds 9. -/
+theorem set_concurrent_unrepaired_fails :
+    (SetCacheConc.run (SetCacheConc.init false 1024 [1, 2] 2)
+      [.gStart 0, .gLoad 0, .gSnap 0, .gLookup 0, .gScan 0,
+       .begin 1, .stage 1 9 true, .bump 1, .wLookup 1,
+       .gInstall 0, .gRead 0,
+       .gStart 0, .gLoad 0, .gSnap 0, .gLookup 0, .gRead 0]).map (·.2)
+      = some [⟨[1, 2], [1, 2], [1, 2, 9]⟩, ⟨[1, 2], [1, 2, 9], [1, 2, 9]⟩] := by decide
+
+/-- the code as it is on the same schedule: the install is refused, the later `get` fetches again -/
+example :
+    (SetCacheConc.run (SetCacheConc.init true 1024 [1, 2] 2)
+      [.gStart 0, .gLoad 0, .gSnap 0, .gLookup 0, .gScan 0,
+       .begin 1, .stage 1 9 true, .bump 1, .wLookup 1,
+       .gInstall 0, .gRead 0,
+       .gStart 0, .gLoad 0, .gSnap 0, .gLookup 0, .gScan 0, .gInstall 0, .gRead 0]).map (·.2)
+      = some [⟨[1, 2], [1, 2], [1, 2, 9]⟩, ⟨[1, 2, 9], [1, 2, 9], [1, 2, 9]⟩] := by decide
+
+/-- `orderedElem`, first half, cannot be dropped: two writes of ONE element that overlap.  The set {} is cached;
+task 0 (batch 0) stages insert 5, task 1 (batch 1) stages remove 5 – the log, the batches and the store say
+"absent"; task 1 updates the cached set first, task 0 second: the cached set says "present" for good. -/
+theorem set_overlap_is_needed :
+    (SetCacheConc.runAny (SetCacheConc.init true 1024 [] 3)
+      [.gStart 2, .gLoad 2, .gSnap 2, .gLookup 2, .gScan 2, .gInstall 2, .gRead 2,
+       .begin 0, .begin 1, .stage 0 5 true, .stage 1 5 false, .bump 1, .wLookup 1, .wApply 1,
+       .bump 0, .wLookup 0, .wApply 0,
+       .gStart 2, .gLoad 2, .gSnap 2, .gLookup 2, .gRead 2]).map (·.2)
+      = some [⟨[], [], []⟩, ⟨[5], [], []⟩] := by decide
+
+/-- `orderedElem`, second half, cannot be dropped: two SEQUENTIAL writes of one element from batches in
+anti-epoch order.  Batch 1 inserts 5 (returns), then batch 0 removes 5 (returns): the last write says "absent",
+but the staging snapshot sorts by epoch (and the store applies batch 0 before batch 1): a `get` returns {5}. -/
+theorem set_epoch_order_is_needed :
+    (SetCacheConc.runAny (SetCacheConc.init true 1024 [] 2)
+      [.begin 0, .begin 1, .stage 1 5 true, .bump 1, .wLookup 1, .stage 0 5 false, .bump 0, .wLookup 0,
+       .gStart 0, .gLoad 0, .gSnap 0, .gLookup 0, .gScan 0, .gInstall 0, .gRead 0]).map (·.2)
+      = some [⟨[5], [], []⟩] ∧
+    (SetCacheConc.run (SetCacheConc.init true 1024 [] 2)
+      [.begin 0, .begin 1, .stage 1 5 true, .bump 1, .wLookup 1, .stage 0 5 false]) = none := by decide
+
+/-- writes of DIFFERENT elements may come in any epoch order and overlap (accepted by `run`) -/
+example :
+    (SetCacheConc.run (SetCacheConc.init true 1024 [] 3)
+      [.begin 0, .begin 1, .stage 1 5 true, .stage 0 6 true, .bump 0, .bump 1, .wLookup 1, .wLookup 0,
+       .gStart 2, .gLoad 2, .gSnap 2, .gLookup 2, .gScan 2, .gInstall 2, .gRead 2]).map (·.2)
+      = some [⟨[5, 6], [5, 6], [5, 6]⟩] := by decide
+
+/-- The result of a `get` as a WHOLE is not the abstract set at one instant, even with a single writer: task 1
+inserts 1; task 0 takes its staging snapshot (added = {1}) and misses the cache; task 1 removes 1, inserts 2,
+submits, the batch is committed; task 0 scans the store ({2}) and overlays its snapshot: {1,2}.  The abstract set
+went {} → {1} → {} → {2}.  Element by element the answer is admissible (both elements were written during the
+read), which is all `set_refines_map_concurrent` claims. -/
+theorem set_whole_set_not_atomic :
+    (SetCacheConc.run (SetCacheConc.init true 1024 [] 2)
+      [.begin 1, .stage 1 1 true, .bump 1, .wLookup 1,
+       .gStart 0, .gLoad 0, .gSnap 0, .gLookup 0,
+       .stage 1 1 false, .bump 1, .wLookup 1, .stage 1 2 true, .bump 1, .wLookup 1, .submit 1, .commit,
+       .gScan 0, .gInstall 0, .gRead 0]).map (·.2) = some [⟨[1, 2], [], [1, 2]⟩] ∧
+    [1, 2] ∉ SetCacheConc.truths (SetCacheConc.init true 1024 [] 2)
+      [.begin 1, .stage 1 1 true, .bump 1, .wLookup 1,
+       .gStart 0, .gLoad 0, .gSnap 0, .gLookup 0,
+       .stage 1 1 false, .bump 1, .wLookup 1, .stage 1 2 true, .bump 1, .wLookup 1, .submit 1, .commit,
+       .gScan 0, .gInstall 0, .gRead 0] := by decide
 
 /-- HISTORICAL (the code BEFORE the fixes of F10 and F17, configuration `asIs` of the model): what
 that code did guarantee.  Along any schedule on which every `get` is
